@@ -18,6 +18,30 @@ CHECKS = [
          text="No-lost-wake-up as invariant (idle with backlog implies a pending schedule attempt), terminal-state predicate and liveness under weak fairness, checked exhaustively; every terminal node of the graph is reached on the real code and must be terminal there with an empty ring. A regression config (re-check removed) must fail in TLC.",
          note="as C01",
          ref="4/C03"),
+    dict(id="C04", engine="actor-scenario", technique="TLC exhaustive on Actor.tla + B-scenario: every behaviour of an edge cover of the scenario-refinement state graph replayed on the real engine with gated deliveries; recorded histories judged by TLC (ActorTrace.tla)",
+         text="Actor.tla (process.Start / Invoke / recover / tryRestart / cleanup phases, restart buffer, inbox status, children table) is model-checked for the lifecycle grammar over every placement of panics, pills and sends; an edge cover of the scenario refinement is replayed on the real engine (every Receive gated, faults injected where the behaviour says) and the recorded delivery log must satisfy the same TLA+ predicate (InitFirst, StartedSecond, StoppedLast, IncOrder, SpawnRet), evaluated by TLC.",
+         note="bounded instances (<= 3 actors, <= 3 messages, <= 2 stop requests, <= 2 panics, MaxRestarts 0..2); gating through Receive only; environment actions issued at settled states",
+         ref="4/C04, 2.2 B-scenario"),
+    dict(id="C05", engine="actor-scenario", technique="TLC exhaustive on Actor.tla + B-scenario replay with injected panics; histories judged by TLC (ActorTrace.tla: AtMostOnce, InOrder, RestartsNumbered, Complete, witness)",
+         text="Every position of a panic (Initialized, Started, any message of a batch, inside a graceful drain, during replay of the restart buffer) is enumerated by TLC; each behaviour is replayed on the real engine and the recorded history must show no redelivery, original order, correctly numbered ActorRestartedEvents, completeness at quiescence and a live witness actor / process.",
+         note="as C04; restart delay 50us; a process death is observed by the parent check process",
+         ref="4/C05"),
+    dict(id="C06", engine="actor-scenario", technique="TLC exhaustive on Actor.tla + B-scenario replay; histories judged by TLC (RestartsBounded, Exhausted => unregistered incl. descendants, witness alive)",
+         text="MaxRestarts in {0,1,2} with the exhausting panic in a first batch, in Started and in the replay of the restart buffer, with and without children; replayed on the real engine; process death of the harness is a recorded outcome.",
+         note="as C04",
+         ref="4/C06"),
+    dict(id="C07", engine="actor-scenario", technique="TLC exhaustive on Actor.tla + B-scenario replay; histories judged by TLC (DoneAfterStop, Drained, AllDone, KindsKnown) with TLA+-evaluated known-finding signatures",
+         text="Stop/Poison tokens racing sends, crashes, restarts and parent shutdown; stop contexts are polled at every step and inside every delivery; the recorded history must satisfy done => Stopped handled and unregistered, drained-before-done for the token acted on, every token done at quiescence, pills never visible. The strict predicates are evaluated as well: they may fail only with the signatures listed in KNOWN_FINDINGS.txt.",
+         note="as C04; 'never done' is decided at quiescence of the scenario (no gate pending, settle interval elapsed)",
+         ref="4/C07"),
+    dict(id="C08", engine="actor-scenario", technique="TLC exhaustive on Actor.tla (trees) + B-scenario replay with cross-actor gate order forced; histories judged by TLC (KidsFirst, ChildrenExact, NotDoneEarly, Parent)",
+         text="Chain of three, parent with two children, parent-child with crashes: shutdown of the root interleaved with children stopping, crashing and third-party poison; Children(), Parent(), registry look-ups of all descendants and done contexts are observed inside every delivery.",
+         note="as C04; trees up to depth 3 / fan-out 2",
+         ref="4/C08"),
+    dict(id="C13", engine="actor-scenario", technique="TLC exhaustive on Actor.tla (per-call-site chain bit) + B-scenario replay with recording middleware chains of length 0..3",
+         text="Every delivery of every behaviour (spawn, user, stop, poison, crash recover, restart, budget exhausted) must have passed through the configured chain exactly once, in order; checked by TLC on the recorded histories.",
+         note="as C04; chain lengths 0..3 rotate over scenarios",
+         ref="4/C13"),
     dict(id="C14", engine="ring-table", technique="TLC exhaustive on RingBuffer.tla (refinement to abstract FIFO) + B-table edge-cover of the real RingBuffer per initial capacity",
          text="The code's head/tail/mod/len arithmetic is modelled literally next to a ghost queue; TLC proves the refinement for every call sequence of the bounded instance and every initial capacity; the real RingBuffer[int] is driven along an edge cover of each graph (every reachable geometry x every call) and its API results are compared with the abstract queue's.",
          note="sequences with <= 6 (quick) / 9 (thorough) pushes, PopN(1..3/4), capacities 1..4 (quick) / up to 8 (thorough); element type int",
@@ -60,6 +84,8 @@ def main():
         "engines": [
             {"name": "inbox-graph", "path": "harness/cmd/inboxgraph", "serves_properties": ["C01", "C02", "C03"],
              "kind_free_text": "TLC state graph of Inbox.tla replayed edge by edge on the real Inbox through gate shims (B-graph)"},
+            {"name": "actor-scenario", "path": "harness/cmd/actorscen", "serves_properties": ["C04", "C05", "C06", "C07", "C08", "C13"],
+             "kind_free_text": "TLC behaviours of Actor.tla replayed on the real engine with gated deliveries; histories validated by TLC against ActorProps.tla (B-scenario)"},
             {"name": "ring-table", "path": "harness/cmd/ringtable", "serves_properties": ["C14"],
              "kind_free_text": "TLC state graph of RingBuffer.tla driven on the real RingBuffer, API results compared (B-table)"},
         ],
